@@ -29,7 +29,7 @@ const (
 // list, an error is reported exactly when no usable text was obtained, and a fresh
 // enough cached copy is used without any download.
 //
-//verif:harness name=H13a-refreshable tier=quick,thorough bounds="one refresh round of one list: cache file absent / present-and-fresh / present-and-stale; download outcome from {ok, connection error, 404, 500, empty body, oversized body, truncated transfer}; temp-file creation and the atomic replace may fail (symbolic build only)" reach=downloaded,used-cache,failed maxpaths=20000
+//verif:harness name=H13a-refreshable tier=quick,thorough bounds="one refresh round of one list: cache file absent / present-and-fresh / present-and-stale; download outcome from {ok, connection error, 404, 500, empty body, oversized body, truncated transfer}, body length announced or streamed (Content-Length known / -1); temp-file creation and the atomic replace may fail (symbolic build only)" reach=downloaded,used-cache,failed maxpaths=20000
 //verif:assume symbolic build: os/renameio/HTTP client calls are stubs over a ghost file system in which only CloseAtomicallyReplace changes the destination (rename(2) atomicity is the kernel's); native replay uses a real temp dir and a loopback HTTP server
 func VerifC13Refreshable() {
 	env := verifNewEnv()
@@ -45,6 +45,8 @@ func VerifC13Refreshable() {
 	}
 	fault := verifChoice(verifFaultN)
 	env.setFault(fault)
+	// whether the server announces the body length or streams it (chunked transfer)
+	env.setChunked(verifChoice(2) == 1)
 	r := env.newRefreshable(staleness, uint64(len(verifNew)+4))
 	env.setNow(now)
 
